@@ -47,9 +47,10 @@ pub fn insert_atoms(z: &ZooLang) -> Vec<Vec<u8>> {
     let mut atoms: Vec<Vec<u8>> = z.lexemes.iter().map(|s| s.as_bytes().to_vec()).collect();
     // (16 line breaks: the row field of an inline leaf's padding is 4 bits wide)
     for extra in ["\n".as_bytes(), "é".as_bytes(), b"\xff", b"\n\n\n\n\n\n\n\n\n\n\n\n\n\n\n\n"] { if !atoms.iter().any(|a| a == extra) { atoms.push(extra.to_vec()); } }
-    // byte-wise typing of a multi-byte character (lead byte first, continuation byte later, not next to the token in front):
+    // byte-wise typing of a THREE-byte character (the first two bytes of U+2603, then its last byte: that second insertion
+    // is two bytes away from the token in front, i.e. behind a one-byte look-ahead but inside the real one):
     // the intermediate text is invalid UTF-8, and the token before it has looked at the whole truncated sequence
-    if z.lexemes.iter().any(|l| !l.is_ascii()) { for extra in [&b"\xc3"[..], &b"\xa9"[..]] { atoms.push(extra.to_vec()); } }
+    if z.lexemes.iter().any(|l| !l.is_ascii()) { for extra in [&b"\xe2\x98"[..], &b"\x83"[..]] { atoms.push(extra.to_vec()); } }
     atoms
 }
 
@@ -85,7 +86,11 @@ pub fn worker(ctx: &Ctx, res: &mut ShardResult) {
         let atoms = insert_atoms(z);
         let pair_atoms: Vec<Vec<u8>> = { let mut v = vec![]; for a in z.lexemes.iter() { for b in z.lexemes.iter() { let mut x = a.as_bytes().to_vec(); x.extend_from_slice(b.as_bytes()); v.push(x); } } v.sort(); v.dedup(); v };
         let mut scratch = ScratchCache::new();
-        let docs = crate::docs::docs(z, k);
+        let mut docs = crate::docs::docs(z, k);
+        // start documents with a TRUNCATED three-byte character (its last byte missing): the token in front has looked at the whole
+        // invalid sequence, and the one-step edit that completes the character is not adjacent to that token
+        let trunc: Vec<Vec<u8>> = { let mut v: Vec<Vec<u8>> = vec![]; for d in docs.iter().filter(|d| d.len() <= 14) { for i in 0..d.len() { if d[i] & 0xf0 == 0xe0 && i + 2 < d.len() { let mut t = d.clone(); t.remove(i + 2); if !v.contains(&t) { v.push(t); } } } } v };
+        docs.extend(trunc);
         let nseeds = z.seeds.len();
         for (di, d) in docs.iter().enumerate() {
             idx += 1;
